@@ -160,6 +160,9 @@ def run(model, rep):
         rep.rule(r, t)
     tab(model, rep)
     resolve_rule(model, rep)
+    from . import rename_e2e
+    rep.rule('C03.E2E', 'renaming end to end on probe modules: same structure, consistent new names, no two bindings of one name meet (scopes from symtable), interface names untouched')
+    rename_e2e.run(model, rep, 'C03.E2E')
     forms(model, rep)
     res_rules(model, rep)
     flow(model, rep)
